@@ -256,7 +256,14 @@ def part2(r, rnd, n, per_doc):
             try:
                 srv.wait_for_log("Workspace scan complete", timeout=30)
                 reexport = (w % 3 == 2)
-                if reexport:
+                third_cursor = (w % 5 == 4) and not reexport
+                if third_cursor:
+                    # the document being edited is itself a site-packages module (someone works on an installed plugin):
+                    # its own fixtures still sort first, before those of the conftest.py above it
+                    tt, ttags = gen_doc(rnd)
+                    docs = [("conftest.py", pgen.gen_program(rnd)[0], []),
+                            (".venv/lib/python3.11/site-packages/extplug/plugin.py", tt, ttags + ["cursor-in-site-packages"])]
+                elif reexport:
                     tt, ttags = gen_doc(rnd)
                     docs = [("shared_fx.py", SHARED, []), ("conftest.py", "from .shared_fx import *\n", []), ("test_target.py", tt, ttags + ["reexport"])]
                 else:
@@ -277,7 +284,8 @@ def part2(r, rnd, n, per_doc):
                 lines = sorted(idx[:per_doc])
                 alltags = [t for _, _, tg in docs for t in tg]
                 items, raw = query(srv, p, text, lines)
-                emit(w, list(steps), "/vw%d/%s" % (w, rel), text, items, raw, [(a, b) for a, b, _ in docs], alltags)
+                vrel = rel.replace(".venv/lib/python3.11/site-packages", "site-packages")
+                emit(w, list(steps), "/vw%d/%s" % (w, vrel), text, items, raw, [(a, b) for a, b, _ in docs], alltags)
                 if reexport:
                     cp = os.path.join(base, "conftest.py")
                     for ver, ctext_ in enumerate(["import os\n", "from .shared_fx import *\n", "from .shared_fx import shared_b\n"]):
